@@ -20,6 +20,15 @@ class MyRoot(reg32.AddrMap, word_count=4):
     r2: MyRegister[8]
 
 
+class MemRoot(reg32.AddrMap):
+    w0: reg32.MemWord[0x00]
+    mem: reg32.Memory[0x10:0x1C]
+    w7: reg32.MemWord[0x1C]
+
+    def _config_(self):
+        self.mem._config_(inline=True)
+
+
 class AxiW(cohdl.Entity):
     clk = Port.input(Bit)
     reset = Port.input(Bit)
@@ -63,5 +72,51 @@ class AxiW(cohdl.Entity):
         std.concurrent_assign(self.o_w1, root.w1.raw)
         std.concurrent_assign(self.o_r2, root.r2.upper.val())
 
+
+
+class AxiM(cohdl.Entity):
+    clk = Port.input(Bit)
+    reset = Port.input(Bit)
+    axi_awaddr = Port.input(Unsigned[32])
+    axi_awprot = Port.input(Unsigned[3])
+    axi_awvalid = Port.input(Bit)
+    axi_awready = Port.output(Bit, default=Null)
+    axi_wdata = Port.input(BitVector[32])
+    axi_wstrb = Port.input(BitVector[4])
+    axi_wvalid = Port.input(Bit)
+    axi_wready = Port.output(Bit, default=Null)
+    axi_bresp = Port.output(BitVector[2], default=Null)
+    axi_bvalid = Port.output(Bit, default=Null)
+    axi_bready = Port.input(Bit)
+    axi_araddr = Port.input(Unsigned[32])
+    axi_arprot = Port.input(Unsigned[3])
+    axi_arvalid = Port.input(Bit)
+    axi_arready = Port.output(Bit, default=Null)
+    axi_rdata = Port.output(BitVector[32], default=Null)
+    axi_rresp = Port.output(BitVector[2], default=Null)
+    axi_rvalid = Port.output(Bit, default=Null)
+    axi_rready = Port.input(Bit)
+    o_w0 = Port.output(BitVector[32])
+    o_w7 = Port.output(BitVector[32])
+
+    def architecture(self):
+        clk = std.Clock(self.clk)
+        reset = std.Reset(self.reset)
+        axi_con = axi.Axi4Light(
+            clk=clk, reset=reset,
+            wraddr=axi.Axi4Light.WrAddr(valid=self.axi_awvalid, ready=self.axi_awready, awaddr=self.axi_awaddr, awprot=self.axi_awprot),
+            wrdata=axi.Axi4Light.WrData(valid=self.axi_wvalid, ready=self.axi_wready, wdata=self.axi_wdata, wstrb=self.axi_wstrb),
+            wrresp=axi.Axi4Light.WrResp(valid=self.axi_bvalid, ready=self.axi_bready, bresp=self.axi_bresp),
+            rdaddr=axi.Axi4Light.RdAddr(valid=self.axi_arvalid, ready=self.axi_arready, araddr=self.axi_araddr, arprot=self.axi_arprot),
+            rddata=axi.Axi4Light.RdData(valid=self.axi_rvalid, ready=self.axi_rready, rdata=self.axi_rdata, rresp=self.axi_rresp),
+        )
+        root = MemRoot()
+        axi_con.connect_addr_map(root)
+        std.concurrent_assign(self.o_w0, root.w0.raw)
+        std.concurrent_assign(self.o_w7, root.w7.raw)
+
+
+
 if __name__ == "__main__":
     print(std.VhdlCompiler.to_string(AxiW))
+    print(std.VhdlCompiler.to_string(AxiM))
